@@ -73,21 +73,22 @@ Qed.
 
 (* ---- the callback decision, characterised ---- *)
 (* [accepts]: the declarative reading of "sets a session" on one request *)
-Definition accepts (canon : bool) (key : N) (r : cb_req) (s : session) (loc : str) : Prop :=
+Definition accepts (canon strict : bool) (key : N) (r : cb_req) (s : session) (loc : str) : Prop :=
   exists v1 n1 p1 v2 n2 p2 email,
     cb_state r = WEnc v1 (Seal key n1 p1) /\
     cb_cookie r = Some (WEnc v2 (Seal key n2 p2)) /\
     (canon = true -> v1 = 0 /\ v2 = 0) /\
     WEnc v1 (Seal key n1 p1) <> WEnc v2 (Seal key n2 p2) /\
     json_into_state p1 = json_into_state p2 /\
+    (strict = true -> f_sid (json_into_state p1) <> 0) /\
     cb_form_ok r = true /\ cb_error r = [] /\ cb_code r <> [] /\
     cb_redeem r = RedeemOk email /\ email <> [] /\
     cb_valid r = true /\
     s = {| s_email := email; s_upstream := cb_host r |} /\
     loc = f_redirect (json_into_state p1).
 
-Lemma callback_ok_iff canon key r s loc :
-  oauth_callback canon key r = CbOk s loc <-> accepts canon key r s loc.
+Lemma callback_ok_iff canon strict key r s loc :
+  oauth_callback canon strict key r = CbOk s loc <-> accepts canon strict key r s loc.
 Proof.
   unfold oauth_callback, accepts. split.
   - destruct (cb_form_ok r) eqn:Ef; cbn [negb]; [|discriminate].
@@ -96,6 +97,7 @@ Proof.
     destruct (cb_redeem r) as [|email] eqn:Er; [discriminate|].
     destruct (nil_str email) eqn:Em; [discriminate|].
     destruct (unmarshal_state canon key (cb_state r)) as [st|] eqn:Us; [|discriminate].
+    destruct (strict && N.eqb (f_sid st) 0) eqn:Estrict; [discriminate|].
     destruct (cb_cookie r) as [cw|] eqn:Ck; [|discriminate].
     destruct (unmarshal_state canon key cw) as [cs|] eqn:Uc; [|discriminate].
     destruct (wire_eqb (cb_state r) cw) eqn:Ew; [discriminate|].
@@ -107,33 +109,36 @@ Proof.
     apply flow_eqb_eq in Efl. apply wire_eqb_neq in Ew.
     exists v1, n1, p1, v2, n2, p2, email. subst cw st cs. rewrite Hs in Ew.
     repeat split; auto.
+    + intros ->. cbn [andb] in Estrict. apply N.eqb_neq in Estrict. exact Estrict.
     + apply nil_str_true; exact Ee.
     + apply nil_str_false; exact Ec.
     + apply nil_str_false; exact Em.
-  - intros (v1 & n1 & p1 & v2 & n2 & p2 & email & Hs & Hc & Hcan & Hne & Hj & Hf & He & Hcode & Hr & Hem & Hv & -> & ->).
+  - intros (v1 & n1 & p1 & v2 & n2 & p2 & email & Hs & Hc & Hcan & Hne & Hj & Hstr & Hf & He & Hcode & Hr & Hem & Hv & -> & ->).
     rewrite Hf. cbn [negb]. rewrite He. cbn [nil_str negb]. unfold redeem_code.
     apply nil_str_false in Hcode. rewrite Hcode, Hr. apply nil_str_false in Hem. rewrite Hem.
     rewrite Hs, Hc.
     rewrite (unmarshal_state_intro canon key v1 n1 p1) by (intros E; apply Hcan; exact E).
     rewrite (unmarshal_state_intro canon key v2 n2 p2) by (intros E; apply Hcan; exact E).
+    assert (strict && N.eqb (f_sid (json_into_state p1)) 0 = false) as ->.
+    { destruct strict; [|reflexivity]. cbn [andb]. apply N.eqb_neq. apply Hstr. reflexivity. }
     apply wire_eqb_neq in Hne. rewrite Hne.
     assert (flow_eqb (json_into_state p1) (json_into_state p2) = true) as -> by (apply flow_eqb_eq; exact Hj).
     cbn [negb]. rewrite Hv. reflexivity.
 Qed.
 
 (* every other request gets an error page: by the type of [cb_result] a page carries no session *)
-Lemma callback_page_otherwise canon key r :
-  (forall s loc, ~ accepts canon key r s loc) -> exists st, oauth_callback canon key r = CbPage st.
+Lemma callback_page_otherwise canon strict key r :
+  (forall s loc, ~ accepts canon strict key r s loc) -> exists st, oauth_callback canon strict key r = CbPage st.
 Proof.
-  intros H. destruct (oauth_callback canon key r) as [st|s loc] eqn:E; [exists st; reflexivity|].
+  intros H. destruct (oauth_callback canon strict key r) as [st|s loc] eqn:E; [exists st; reflexivity|].
   apply callback_ok_iff in E. destruct (H _ _ E).
 Qed.
 
 (* two different records never pass: A's state with B's cookie *)
-Lemma cross_rejected canon key r v1 n1 fa v2 n2 fb :
+Lemma cross_rejected canon strict key r v1 n1 fa v2 n2 fb :
   cb_state r = WEnc v1 (Seal key n1 (PFlow fa)) ->
   cb_cookie r = Some (WEnc v2 (Seal key n2 (PFlow fb))) ->
-  fa <> fb -> forall s loc, oauth_callback canon key r <> CbOk s loc.
+  fa <> fb -> forall s loc, oauth_callback canon strict key r <> CbOk s loc.
 Proof.
   intros Hs Hc Hne s loc E. apply callback_ok_iff in E.
   destruct E as [v1' [n1' [p1 [v2' [n2' [p2 [email [Hs' [Hc' [_ [_ [Hj _]]]]]]]]]]]].
@@ -141,8 +146,8 @@ Proof.
 Qed.
 
 (* with canonical decoding, different strings are different ciphertexts *)
-Lemma distinct_ciphertexts key r s loc :
-  oauth_callback true key r = CbOk s loc ->
+Lemma distinct_ciphertexts strict key r s loc :
+  oauth_callback true strict key r = CbOk s loc ->
   exists c1 c2, cb_state r = WEnc 0 c1 /\ cb_cookie r = Some (WEnc 0 c2) /\ c1 <> c2.
 Proof.
   intros E. apply callback_ok_iff in E.
@@ -158,7 +163,7 @@ Definition ex_req (state : wire) (cookie : option wire) : cb_req :=
      cb_host := [104]; cb_redeem := RedeemOk [117; 64; 120]; cb_valid := true |}.
 Lemma distinct_ciphertexts_refuted :
   exists key c r s loc,
-    oauth_callback false key r = CbOk s loc /\ cb_state r = WEnc 1 c /\ cb_cookie r = Some (WEnc 0 c).
+    oauth_callback false false key r = CbOk s loc /\ cb_state r = WEnc 1 c /\ cb_cookie r = Some (WEnc 0 c).
 Proof.
   exists 7, (Seal 7 2 (PFlow ex_flow)),
     (ex_req (WEnc 1 (Seal 7 2 (PFlow ex_flow))) (Some (WEnc 0 (Seal 7 2 (PFlow ex_flow))))).
@@ -193,7 +198,7 @@ Proof.
     cbn in E. destruct (Hk _ _ _ Hin). lia.
 Qed.
 
-Lemma inv_step canon key w e : inv key w -> inv key (fst (step canon key w e)).
+Lemma inv_step canon strict key w e : inv key w -> inv key (fst (step canon strict key w e)).
 Proof.
   intros I. destruct e as [u|s|r]; cbn [step].
   - destruct I as [Hk Hf Hs Hn Hnn]. cbn [fst oauth_start st_flow st_cookie st_state]. constructor; cbn [w_ctr w_flows w_issued].
@@ -207,30 +212,30 @@ Proof.
       * intros [E|Hin]; [lia|]. apply in_map_iff in Hin as [[k n p] [E Hin]]. cbn in E. destruct (Hk _ _ _ Hin). lia.
       * intros Hin. apply in_map_iff in Hin as [[k n p] [E Hin]]. cbn in E. destruct (Hk _ _ _ Hin). lia.
   - cbn [fst]. apply inv_push_session. exact I.
-  - destruct (oauth_callback canon key r) as [st|s loc]; cbn [fst]; [exact I | apply inv_push_session; exact I].
+  - destruct (oauth_callback canon strict key r) as [st|s loc]; cbn [fst]; [exact I | apply inv_push_session; exact I].
 Qed.
 
-Lemma inv_run canon key evs : forall w, inv key w -> inv key (run canon key w evs).
+Lemma inv_run canon strict key evs : forall w, inv key w -> inv key (run canon strict key w evs).
 Proof.
   induction evs as [|e evs IH]; intros w I; cbn [run]; [exact I|]. apply IH. apply inv_step. exact I.
 Qed.
 
-Lemma run_app canon key evs1 evs2 w :
-  run canon key w (evs1 ++ evs2) = run canon key (run canon key w evs1) evs2.
+Lemma run_app canon strict key evs1 evs2 w :
+  run canon strict key w (evs1 ++ evs2) = run canon strict key (run canon strict key w evs1) evs2.
 Proof. revert w. induction evs1 as [|e evs1 IH]; intros w; cbn [run app]; [reflexivity | apply IH]. Qed.
 
-Lemma admissible_app canon key evs1 evs2 : forall w,
-  admissible canon key w (evs1 ++ evs2) =
-  admissible canon key w evs1 && admissible canon key (run canon key w evs1) evs2.
+Lemma admissible_app canon strict key evs1 evs2 : forall w,
+  admissible canon strict key w (evs1 ++ evs2) =
+  admissible canon strict key w evs1 && admissible canon strict key (run canon strict key w evs1) evs2.
 Proof.
   induction evs1 as [|e evs1 IH]; intros w; cbn [admissible app run]; [reflexivity|].
   rewrite IH. rewrite andb_assoc. reflexivity.
 Qed.
 
 (* what the last callback of an admissible history may carry *)
-Lemma admissible_last canon key evs r :
-  admissible canon key init_world (evs ++ [ECallback r]) = true ->
-  req_derivable key (w_issued (run canon key init_world evs)) r = true.
+Lemma admissible_last canon strict key evs r :
+  admissible canon strict key init_world (evs ++ [ECallback r]) = true ->
+  req_derivable key (w_issued (run canon strict key init_world evs)) r = true.
 Proof.
   rewrite admissible_app. intros H. apply andb_true_iff in H as [_ H]. cbn [admissible] in H.
   apply andb_true_iff in H as [H _]. exact H.
@@ -247,14 +252,16 @@ Proof. cbn [wire_derivable]. rewrite N.eqb_refl. cbn [negb orb]. apply sealed_in
    request's Host — and either the record is a flow this proxy started and Location is that flow's
    recorded URI, or (the type confusion of the faithful model) both values are sealed SESSIONS,
    which open as the empty record, and Location is the empty string. *)
-Definition own_flow_or_confusion (w : world) (p1 p2 : payload) (loc : str) : Prop :=
-  (exists f, In f (w_flows w) /\ p1 = PFlow f /\ p2 = PFlow f /\ loc = f_redirect f) \/
-  (exists s1 s2, p1 = PSession s1 /\ p2 = PSession s2 /\ loc = []).
+Definition own_flow (w : world) (p1 p2 : payload) (loc : str) : Prop :=
+  exists f, In f (w_flows w) /\ p1 = PFlow f /\ p2 = PFlow f /\ loc = f_redirect f.
+Definition own_flow_or_confusion (strict : bool) (w : world) (p1 p2 : payload) (loc : str) : Prop :=
+  own_flow w p1 p2 loc \/
+  (strict = false /\ exists s1 s2, p1 = PSession s1 /\ p2 = PSession s2 /\ loc = []).
 
-Lemma session_only_for_own_flow_partial canon key evs r s loc :
-  admissible canon key init_world (evs ++ [ECallback r]) = true ->
-  oauth_callback canon key r = CbOk s loc ->
-  let w := run canon key init_world evs in
+Lemma session_only_for_own_flow_partial canon strict key evs r s loc :
+  admissible canon strict key init_world (evs ++ [ECallback r]) = true ->
+  oauth_callback canon strict key r = CbOk s loc ->
+  let w := run canon strict key init_world evs in
   exists v1 n1 p1 v2 n2 p2 email,
     cb_state r = WEnc v1 (Seal key n1 p1) /\ cb_cookie r = Some (WEnc v2 (Seal key n2 p2)) /\
     In (Seal key n1 p1) (w_issued w) /\ In (Seal key n2 p2) (w_issued w) /\
@@ -262,12 +269,12 @@ Lemma session_only_for_own_flow_partial canon key evs r s loc :
     (canon = true -> v1 = 0 /\ v2 = 0 /\ n1 <> n2) /\
     cb_code r <> [] /\ cb_redeem r = RedeemOk email /\ email <> [] /\ cb_valid r = true /\
     s = {| s_email := email; s_upstream := cb_host r |} /\
-    own_flow_or_confusion w p1 p2 loc.
+    own_flow_or_confusion strict w p1 p2 loc.
 Proof.
-  intros Ha E w. pose proof (admissible_last _ _ _ _ Ha) as Hd. fold w in Hd.
+  intros Ha E w. pose proof (admissible_last _ _ _ _ _ Ha) as Hd. fold w in Hd.
   assert (I : inv key w) by (apply inv_run, inv_init).
   apply callback_ok_iff in E.
-  destruct E as (v1 & n1 & p1 & v2 & n2 & p2 & email & Hs & Hc & Hcan & Hne & Hj & Hf & He & Hcode & Hr & Hem & Hv & Hsess & Hloc).
+  destruct E as (v1 & n1 & p1 & v2 & n2 & p2 & email & Hs & Hc & Hcan & Hne & Hj & Hstr & Hf & He & Hcode & Hr & Hem & Hv & Hsess & Hloc).
   unfold req_derivable in Hd. rewrite Hs, Hc in Hd. apply andb_true_iff in Hd as [Hd1 Hd2].
   apply wire_derivable_In in Hd1. apply wire_derivable_In in Hd2.
   exists v1, n1, p1, v2, n2, p2, email. repeat split; auto.
@@ -283,11 +290,34 @@ Proof.
     + exfalso. apply Hnotin. subst c. cbn [nonce_of]. apply in_map_iff. exists (Seal key n2 p2). split; [reflexivity | exact H2].
     + exfalso. apply Hnotin. subst c. cbn [nonce_of]. apply in_map_iff. exists (Seal key n2 p1). split; [reflexivity | exact H1].
     + apply IH; assumption.
-  - unfold own_flow_or_confusion. destruct p1 as [f1|s1], p2 as [f2|s2]; cbn [json_into_state] in Hj, Hloc.
+  - unfold own_flow_or_confusion, own_flow. destruct p1 as [f1|s1], p2 as [f2|s2]; cbn [json_into_state] in Hj, Hloc, Hstr.
     + left. subst f2. exists f1. split; [eapply (inv_flow _ _ I); exact Hd1 | auto].
     + exfalso. subst f1. pose proof (inv_sid _ _ I empty_flow (inv_flow _ _ I _ _ _ Hd1)) as H. cbn in H. lia.
     + exfalso. subst f2. pose proof (inv_sid _ _ I empty_flow (inv_flow _ _ I _ _ _ Hd2)) as H. cbn in H. lia.
-    + right. exists s1, s2. auto.
+    + right. split; [|exists s1, s2; auto].
+      destruct strict; [|reflexivity]. exfalso. apply Hstr; reflexivity.
+Qed.
+
+(* the full statement of DESIGN §6 — provable exactly when the callback refuses the empty record *)
+Lemma session_only_for_own_flow canon key evs r s loc :
+  admissible canon true key init_world (evs ++ [ECallback r]) = true ->
+  oauth_callback canon true key r = CbOk s loc ->
+  let w := run canon true key init_world evs in
+  exists v1 n1 f v2 n2 email,
+    In f (w_flows w) /\
+    cb_state r = WEnc v1 (Seal key n1 (PFlow f)) /\ cb_cookie r = Some (WEnc v2 (Seal key n2 (PFlow f))) /\
+    In (Seal key n1 (PFlow f)) (w_issued w) /\ In (Seal key n2 (PFlow f)) (w_issued w) /\
+    WEnc v1 (Seal key n1 (PFlow f)) <> WEnc v2 (Seal key n2 (PFlow f)) /\
+    (canon = true -> v1 = 0 /\ v2 = 0 /\ n1 <> n2) /\
+    cb_code r <> [] /\ cb_redeem r = RedeemOk email /\ email <> [] /\ cb_valid r = true /\
+    s = {| s_email := email; s_upstream := cb_host r |} /\ loc = f_redirect f.
+Proof.
+  intros Ha E w.
+  destruct (session_only_for_own_flow_partial _ _ _ _ _ _ _ Ha E)
+    as (v1 & n1 & p1 & v2 & n2 & p2 & email & Hs & Hc & Hi1 & Hi2 & Hne & Hcan & Hcode & Hr & Hem & Hv & Hsess & Hown).
+  fold w in Hi1, Hi2, Hown.
+  destruct Hown as [[f [Hin [-> [-> ->]]]]|[Hf _]]; [|discriminate].
+  exists v1, n1, f, v2, n2, email. repeat split; auto; destruct (Hcan H) as [? [? ?]]; assumption.
 Qed.
 
 (* the full statement (always a started flow) is false of the faithful model: two sealed sessions,
@@ -303,9 +333,9 @@ Definition ex_confused : cb_req :=
 
 Lemma session_only_for_own_flow_refuted :
   exists canon key evs r s loc,
-    admissible canon key init_world (evs ++ [ECallback r]) = true /\
-    oauth_callback canon key r = CbOk s loc /\
-    ~ exists f v n, In f (w_flows (run canon key init_world evs)) /\ cb_state r = WEnc v (Seal key n (PFlow f)).
+    admissible canon false key init_world (evs ++ [ECallback r]) = true /\
+    oauth_callback canon false key r = CbOk s loc /\
+    ~ exists f v n, In f (w_flows (run canon false key init_world evs)) /\ cb_state r = WEnc v (Seal key n (PFlow f)).
 Proof.
   exists true, ex_key, (ex_login 0 ++ ex_login 3), ex_confused. do 2 eexists.
   split; [vm_compute; reflexivity|]. split; [vm_compute; reflexivity|].
@@ -317,13 +347,13 @@ Example own_flow_accepted :
   let evs := [EStart [47; 97]] in
   let f := {| f_sid := 1; f_redirect := [47; 97] |} in
   let r := ex_req (WEnc 0 (Seal ex_key 2 (PFlow f))) (Some (WEnc 0 (Seal ex_key 1 (PFlow f)))) in
-  admissible false ex_key init_world (evs ++ [ECallback r]) = true /\
-  oauth_callback false ex_key r = CbOk {| s_email := [117; 64; 120]; s_upstream := [104] |} [47; 97].
+  admissible false false ex_key init_world (evs ++ [ECallback r]) = true /\
+  oauth_callback false false ex_key r = CbOk {| s_email := [117; 64; 120]; s_upstream := [104] |} [47; 97].
 Proof. split; vm_compute; reflexivity. Qed.
 
 (* flows started by different requests are different records, even for the same URL *)
-Lemma started_flows_distinct canon key evs :
-  NoDup (map f_sid (w_flows (run canon key init_world evs))).
+Lemma started_flows_distinct canon strict key evs :
+  NoDup (map f_sid (w_flows (run canon strict key init_world evs))).
 Proof. apply (inv_sid_nodup key). apply inv_run, inv_init. Qed.
 
 Lemma NoDup_map_nth {A B} (g : A -> B) (l : list A) i j a b :
@@ -338,46 +368,46 @@ Proof.
   - eapply IH; eauto.
 Qed.
 
-Lemma cross_flow_rejected canon key evs i j fa fb r v1 n1 v2 n2 :
-  let w := run canon key init_world evs in
+Lemma cross_flow_rejected canon strict key evs i j fa fb r v1 n1 v2 n2 :
+  let w := run canon strict key init_world evs in
   nth_error (w_flows w) i = Some fa -> nth_error (w_flows w) j = Some fb -> i <> j ->
   cb_state r = WEnc v1 (Seal key n1 (PFlow fa)) ->
   cb_cookie r = Some (WEnc v2 (Seal key n2 (PFlow fb))) ->
-  exists st, oauth_callback canon key r = CbPage st.
+  exists st, oauth_callback canon strict key r = CbPage st.
 Proof.
   intros w Hi Hj Hij Hs Hc.
   assert (fa <> fb) as Hne.
-  { intros E. eapply (NoDup_map_nth f_sid _ i j fa fb (started_flows_distinct canon key evs)); eauto. congruence. }
-  destruct (oauth_callback canon key r) as [st|s loc] eqn:E; [exists st; reflexivity|].
+  { intros E. eapply (NoDup_map_nth f_sid _ i j fa fb (started_flows_distinct canon strict key evs)); eauto. congruence. }
+  destruct (oauth_callback canon strict key r) as [st|s loc] eqn:E; [exists st; reflexivity|].
   exfalso. eapply cross_rejected; eauto.
 Qed.
 
 (* where the recorded URIs of started flows come from *)
-Lemma flows_from_starts canon key evs : forall w f,
-  In f (w_flows (run canon key w evs)) -> In f (w_flows w) \/ In (EStart (f_redirect f)) evs.
+Lemma flows_from_starts canon strict key evs : forall w f,
+  In f (w_flows (run canon strict key w evs)) -> In f (w_flows w) \/ In (EStart (f_redirect f)) evs.
 Proof.
   induction evs as [|e evs IH]; intros w f H; cbn [run] in H; [left; exact H|].
   apply IH in H as [H|H]; [|right; right; exact H].
   destruct e as [u|s|r]; cbn [step fst] in H.
   - cbn [w_flows oauth_start st_flow] in H. destruct H as [E|H]; [right; left; subst f; reflexivity | left; exact H].
   - left. exact H.
-  - destruct (oauth_callback canon key r); cbn [fst w_flows] in H; left; exact H.
+  - destruct (oauth_callback canon strict key r); cbn [fst w_flows] in H; left; exact H.
 Qed.
 
 (* ---- composition with ReqUri: where the browser is sent after a login ----
    If every flow was started by an origin-form request that the router passed to Proxy, the
    Location of any accepted callback is a same-site relative URI — or the empty string in the
    type-confusion case (net/http.Redirect turns "" into "/oauth2/"). *)
-Lemma returns_same_site hosts hh canon key evs r s loc :
+Lemma returns_same_site hosts hh canon strict key evs r s loc :
   (forall u, In (EStart u) evs -> exists t h, has_prefix t [47] = true /\ route hosts hh t = RProxy h u) ->
-  admissible canon key init_world (evs ++ [ECallback r]) = true ->
-  oauth_callback canon key r = CbOk s loc ->
+  admissible canon strict key init_world (evs ++ [ECallback r]) = true ->
+  oauth_callback canon strict key r = CbOk s loc ->
   same_site_rel loc = true \/ loc = [].
 Proof.
   intros Hst Ha E.
-  destruct (session_only_for_own_flow_partial _ _ _ _ _ _ Ha E)
+  destruct (session_only_for_own_flow_partial _ _ _ _ _ _ _ Ha E)
     as (v1 & n1 & p1 & v2 & n2 & p2 & email & _ & _ & _ & _ & _ & _ & _ & _ & _ & _ & _ & Hown).
-  destruct Hown as [[f [Hin [_ [_ ->]]]]|[s1 [s2 [_ [_ ->]]]]]; [left | right; reflexivity].
+  destruct Hown as [[f [Hin [_ [_ ->]]]]|[_ [s1 [s2 [_ [_ ->]]]]]]; [left | right; reflexivity].
   apply flows_from_starts in Hin as [Hin|Hin]; [destruct Hin|].
   destruct (Hst _ Hin) as [t [h [Hp Hr]]]. destruct (route_same_site _ _ _ _ _ Hp Hr) as [_ [_ H]]. exact H.
 Qed.
